@@ -60,6 +60,12 @@ pub fn check(rep: &Report, label: &str, sub: &Subject, src: &[u8], menu: Menu, e
         rep.violation(&format!("{}/panic", label), mk("panic"), format!("panic under schedule [{}]: {}", sched, m));
         return;
     }
+    // success means the sink HAS the output: every accepted byte was followed by a flush that answered Ok (a flush that was
+    // interrupted and never repeated leaves a committing sink without the last chunk)
+    if res.is_ok() && env.unflushed() {
+        rep.violation(&format!("{}/ok-with-unflushed-output", label), mk("unflushed"), format!("Ok returned under [{}] although the last bytes written were never followed by a successful flush", sched));
+        return;
+    }
     // all injected faults of this execution, in call order
     let faults: Vec<(usize, PKind, Ans)> = env.points.iter().enumerate().filter(|(_, p)| p.alts[p.chosen].1 == Class::Fault).map(|(i, p)| (i, p.kind, p.alts[p.chosen].0)).collect();
     if faults.is_empty() {
@@ -200,7 +206,7 @@ pub fn bounded_sink_cases(rep: &Report, tag: &str) {
 pub fn run(rep: &Report) {
     let seed = rep.seed;
     rep.set_rule("E-ENV fault enumeration: for every call index k of every explored run, each fault of the menu (read: Interrupted, Other; write: Ok(0), Interrupted, Other; flush: Interrupted, Other) is injected at k (fault budget 1) on top of short-read/short-write schedules within the stated budget; every execution is checked against the oracle, failing ones are re-run with the fault replaced by the default answer (prefix clause). distinct non-trivial = distinct (subject, input, tape) executions that contain at least one non-default answer");
-    rep.rule_add("CLI: 16 authentic / cut inputs (full and many short chunks, both modes) x 4 sinks (-o fresh, -o over a longer file, stdout pipe, stdout into a file): identical bytes and status.");
+    rep.rule_add("CLI: 16 authentic / cut inputs (full and many short chunks, both modes) x 4 sinks (-o fresh, -o over a longer file, stdout pipe, stdout into a file): identical bytes and status; the same bytes as /proc/version (reported size 0), ordinary file, stdin pipe, FIFO: identical plaintext back. Ok from the library implies the last accepted bytes were followed by a successful flush.");
     rep.rule_add("Bounded sinks (&mut [u8], Cursor): 27 capacities around the record boundaries x 4 operations: Ok exactly when everything fitted, else an error and a prefix.");
     rep.rule_add("CLI faults (missing directory, /dev/full, closed pipe, RLIMIT_FSIZE, directory as input) and CLI partial reads (stdin in pieces at a boundary set of offsets; byte by byte).");
     rep.assume("fault budget 1 per execution (2 on the smallest scopes in the thorough tier: an interruption followed by another fault); after a hard fault the operation has returned; Interrupted is never injected twice in a row at one position");
@@ -405,6 +411,7 @@ pub fn run(rep: &Report) {
     cli_partial_reads(rep);
     bounded_sink_cases(rep, "C10");
     cli_same_result(rep);
+    cli_same_source(rep);
     rep.set_exhaustive(true);
 }
 
@@ -486,6 +493,78 @@ fn cli_same_result(rep: &Report) {
         }
     });
     rep.extra("cli_same_result_inputs", json!(jobs.len()));
+}
+
+/// "The same result over any conforming byte source", at the program level: the same bytes offered as a FILE argument whose
+/// reported size is 0 (/proc/version), as an ordinary file, on a stdin pipe and as a FIFO: all four encryptions decrypt
+/// (REF) to exactly those bytes.
+fn cli_same_source(rep: &Report) {
+    let seed = rep.seed;
+    let (alice, bob) = party_fixtures(seed);
+    let kr = crate::fx::keyring(&[(&alice, true), (&bob, true)]);
+    let data = match std::fs::read("/proc/version") {
+        Ok(d) if !d.is_empty() => d,
+        _ => {
+            rep.extra("cli_same_source", json!("not judged: /proc/version is not readable here"));
+            return;
+        }
+    };
+    let sources = ["/proc/version", "ordinary file", "stdin pipe", "fifo"];
+    let mut jobs = vec![];
+    for mode in ["key", "pass"] {
+        for s in sources {
+            jobs.push((mode, s));
+        }
+    }
+    jobs.par_iter().for_each(|&(mode, source)| {
+        rep.eval(1);
+        rep.nontrivial(format!("cli-same-source-{}-{}", mode, source).as_bytes());
+        let attempt = || -> Result<(), String> {
+            let sc = Scratch::new();
+            sc.write("kr.txt", kr.as_bytes());
+            let mut a: Vec<&str> = if mode == "key" { vec!["encrypt", "-t", "bob", "-f", "alice", "-k", "kr.txt", "-o", "out.ktl", "--env-pass"] } else { vec!["password", "encrypt", "-o", "out.ktl", "--env-pass"] };
+            let at = if mode == "key" { 1 } else { 2 };
+            let mut cmd;
+            let mut feeder = None;
+            match source {
+                "/proc/version" => {
+                    a.insert(at, "/proc/version");
+                    cmd = Cmd::new(&a);
+                }
+                "ordinary file" => {
+                    sc.write("copy.txt", &data);
+                    a.insert(at, "copy.txt");
+                    cmd = Cmd::new(&a);
+                }
+                "fifo" => {
+                    feeder = Some(proc::feed_fifo(sc.path("in.fifo"), data.clone())?);
+                    a.insert(at, "in.fifo");
+                    cmd = Cmd::new(&a);
+                }
+                _ => {
+                    cmd = Cmd::new(&a).stdin(&data);
+                }
+            }
+            cmd = cmd.env("KESTREL_PASSWORD", if mode == "key" { "alicepw" } else { "pw" });
+            let o = proc::run(&cmd, &sc.0);
+            if let Some(f) = feeder {
+                let _ = f.join();
+            }
+            o.well_behaved()?;
+            let f = sc.read("out.ktl").unwrap_or_default();
+            let back = if mode == "key" { r::read_key_file(&bob.sk, &f).map(|k| k.parsed.plaintext).ok() } else if f.len() >= 36 { r::read_pass_file_with_key(&r::pass_key(b"pw", f[4..36].try_into().unwrap()), &f).map(|k| k.plaintext).ok() } else { None };
+            if !o.ok() || back.as_deref() != Some(&data[..]) {
+                return Err(format!("exit {:?}; the file decrypts to {} instead of the {} bytes offered", o.code, back.map(|b| format!("{} bytes", b.len())).unwrap_or("nothing".into()), data.len()));
+            }
+            Ok(())
+        };
+        if attempt().is_err() {
+            if let Err(e) = attempt() {
+                rep.violation("C10/cli-same-source", json!({"kind":"cli-same","source":source,"mode":mode}), format!("kestrel {} encrypt of the contents of /proc/version offered as {}: {}", mode, source, e));
+            }
+        }
+    });
+    rep.extra("cli_same_source_runs", json!(jobs.len()));
 }
 
 fn cli_level(rep: &Report) {
@@ -722,6 +801,7 @@ pub fn replay(rep: &Report, case: &Value) {
         return;
     }
     if case["kind"] == "cli-same" {
+        cli_same_source(rep);
         cli_same_result(rep);
         return;
     }
